@@ -305,6 +305,9 @@ package decode
 //@   step 0 [C13.chunk.step.ok C03.chunk.step.ok] (= (meta.err (arr src@0) (head (off src)) E0) 0)
 //@   step 0 [C13.chunk.step.next C03.chunk.step.next] (= (off src) (meta.dataEnd (arr src@0) (head (off src)) E0))
 //@   step 0 [C13.chunk.step.count C03.chunk.step.count] (= nMetadataChunks (bvsub (head nMetadataChunks) #x00000001))
+// spec section Metadata: "Chunks must be presented in increasing MID order ... MIDs cannot be repeated". The decoder does not
+// enforce this (defect F6, recorded as a known finding): the clause below is expected to fail.
+//@   step 0 [C03.meta.mid-order] (=> (bvugt nMetadataChunks #x00000000) (bvult (meta.mid (arr src@0) (head (off src)) E0) (meta.mid (arr src@0) (off src) E0)))
 //@   invariant 0 [decode.chunks C02.chunks.no-event C13.chunks.no-event] (and (=> (= p 0) (= TRP (old TRP))) (= TRD (old TRD)) (= mon.dst (old mon.dst)) (= (rgn src) (rgn src@0)) (= E E0) (bvule (off src) E0))
 //@   invariant 1 [decode.opts C14.opts.no-event] (and (=> (= p 0) (= TRP (old TRP))) (= TRD (old TRD)) (= mon.dst (old mon.dst)))
 //@   invariant 2 [decode.sanitise C14.sanitise] (and (=> (= p 0) (= TRP (old TRP))) (= TRD (old TRD)) (= mon.dst (old mon.dst)) (forall ((k!v (_ BitVec 64))) (=> (bvsle k!v rangeindex) (=> (bvult k!v #x0000000000000040) (spec.validPremul (select m.Palette k!v))))))
